@@ -70,6 +70,15 @@ def library_self_check(obj=None):
     return None
 
 
+def left_executing():
+    """Is any formula still marked as executing?  Reads modelx's private executor state (the property names it: call stack,
+    pending reference reads, the executing flag); a part that another version of the library does not have is skipped."""
+    import modelx as mx
+    sysm = mx.core.mxsys
+    ex = getattr(sysm, "executor", None)
+    return bool(getattr(sysm, "callstack", None)) or bool(getattr(sysm, "refstack", None)) or bool(getattr(ex, "is_executing", False))
+
+
 def norm(v):
     """Normalise a value for comparison and logging."""
     if isinstance(v, (int, float, str, bool)) or v is None:
